@@ -121,4 +121,19 @@ func init() {
 		},
 		Quick: 45, Thorough: 900, Real: commonReal, Simulated: commonSim,
 	}
+	Props["C16"] = &PropSpec{
+		ID: "C16", Level: "exploration",
+		Technique: "deterministic simulation under the Go race detector: serialised, replayable executions in which the scheduler's hand-offs are hidden from ThreadSanitizer (runtime.RaceDisable, uninstrumented simulator packages) and the simulated sync primitives publish exactly the happens-before edges of the real ones",
+		Rule: "one case = a C05/C06 style concurrent run (clients, flusher, explicit GC tasks or background collectors, Close at the end) plus a task calling StorageSize/IndexStorageSize/PrimaryStorageSize/FreelistStorageSize and SetFileCacheSize, executed in the -race build; ThreadSanitizer's report count must stay 0; because detection is happens-before based a missing lock is reported on any schedule that merely executes both accesses; " +
+			"non-trivial = the race detector is enabled and at least one overlapping pair of calls includes a write; distinct = distinct (plan hash, schedule hash)",
+		Nontrivial: func(o *RunOut) bool {
+			return o.Probes["race-enabled"] > 0 && o.Probes["overlap-same-key-write"]+o.Probes["overlap-same-bucket-write"] > 0
+		},
+		Assumptions: []string{
+			"ThreadSanitizer's bounded access history can miss pairs that are very far apart",
+			"the simulated sync primitives publish the same happens-before edges as package sync (Mutex, RWMutex two-address scheme, Once, WaitGroup); real channels and go statements contribute their native edges; file operations contribute none",
+			"two cycles of the same collector are never run at once (explicit GC tasks are not combined with the background collectors)",
+		},
+		Quick: 60, Thorough: 900, Real: commonReal, Simulated: commonSim,
+	}
 }
